@@ -22,6 +22,9 @@
 #include "src/opus_encoder.c"
 #include "src/opus_decoder.c"
 #include "c12_fields.h"
+#include "opus_multistream.h"
+#include "opus_projection.h"
+struct OpusProjectionEncoder { opus_int32 mixing_matrix_size_in_bytes; opus_int32 demixing_matrix_size_in_bytes; };   /* src/opus_projection_encoder.c:41-46 */
 #define main twin_main
 #include "c12_twin.c"
 #undef main
@@ -279,12 +282,65 @@ static int tie(uint64_t seed, int n)
             else printf("O %s\n", verr(ret));
          }
       } else {
-         OpusDecoder *d = (OpusDecoder *)o.p;
+         OpusDecoder *d = (OpusDecoder *)o.p; int nstep = 0;
+         /* decode-call footprint: members before / after each of the next decode calls of the history */
+         for (j = cs.cut; j < cs.nops && nstep < 5; j++) {
+            Rec t;
+            if (cs.ops[j].type == OP_DEC) {
+               int null_data = cs.ops[j].a < 0 || cs.pklen[cs.ops[j].a] == 0;
+               printf("I misc decstep "); print_dec(stdout, d, (OpusDecoder *)ref.p, o.size); printf(" ");
+               run_op(&cs, &o, &cs.ops[j], &t);
+               print_dec(stdout, d, (OpusDecoder *)ref.p, o.size); printf(" %d\nO ok\n", null_data);
+               nstep++;
+            } else run_op(&cs, &o, &cs.ops[j], &t);
+         }
          printf("I misc decreset "); print_dec(stdout, d, (OpusDecoder *)ref.p, o.size); printf("\n");
          opus_decoder_ctl(d, OPUS_RESET_STATE);
          printf("O RESET "); print_dec(stdout, d, (OpusDecoder *)ref.p, o.size); printf("\n");
       }
       obj_free(&o); obj_free(&ref); free_case(&cs);
+   }
+   /* multistream / projection reset = fan-out of the per-stream reset (+ surround memories) */
+   for (k = 0; k < n / 8 + 4; k++) {
+      Obj o; int j, sidx, kind = (k % 4 == 3) ? K_MSDEC : (k % 4 == 2) ? K_PROJENC : K_MSENC;
+      gen_case(&cs, 1, kind, seed, 200000 + k);
+      o = obj_new(&cs);
+      for (j = 0; j < cs.cut; j++) { Rec t; run_op(&cs, &o, &cs.ops[j], &t); }
+      for (a = 0; a < 2; a++) {                       /* a = 0: before (input line), a = 1: after (output line) */
+         if (kind == K_MSDEC) {
+            OpusMSDecoder *m = (OpusMSDecoder *)o.p;
+            if (a == 0) printf("I misc msdecreset %d,%d,%d ", m->layout.nb_channels, m->layout.nb_streams, m->layout.nb_coupled_streams);
+            else printf("O MSRESET %d %d,%d,%d ", opus_multistream_decoder_ctl(m, OPUS_RESET_STATE), m->layout.nb_channels, m->layout.nb_streams, m->layout.nb_coupled_streams);
+            for (sidx = 0; sidx < m->layout.nb_streams; sidx++) {
+               OpusDecoder *d = NULL, *rf; int sz;
+               opus_multistream_decoder_ctl(m, OPUS_MULTISTREAM_GET_DECODER_STATE(sidx, &d));
+               sz = opus_decoder_get_size(d->channels); rf = (OpusDecoder *)malloc(sz); opus_decoder_init(rf, d->Fs, d->channels);
+               if (sidx) printf(";");
+               print_dec(stdout, d, rf, sz); free(rf);
+            }
+         } else {
+            OpusMSEncoder *m = kind == K_PROJENC ? (OpusMSEncoder *)((char *)o.p + align((int)sizeof(OpusProjectionEncoder) +
+                                   ((OpusProjectionEncoder *)o.p)->mixing_matrix_size_in_bytes + ((OpusProjectionEncoder *)o.p)->demixing_matrix_size_in_bytes))
+                                                 : (OpusMSEncoder *)o.p;
+            int mono = align(opus_encoder_get_size(1)), coup = align(opus_encoder_get_size(2)), code = 0, mz, total;
+            long off = align(sizeof(OpusMSEncoder)) + (long)m->layout.nb_coupled_streams * coup + (long)(m->layout.nb_streams - m->layout.nb_coupled_streams) * mono;
+            if (a == 1) code = kind == K_PROJENC ? opus_projection_encoder_ctl((OpusProjectionEncoder *)o.p, OPUS_RESET_STATE) : opus_multistream_encoder_ctl(m, OPUS_RESET_STATE);
+            total = m->mapping_type == MAPPING_TYPE_SURROUND ? (int)(off + (long)m->layout.nb_channels * 121 * sizeof(opus_val32)) : (int)off;
+            mz = region_zero((char *)m + off, total - off);
+            if (a == 0) printf("I misc msreset "); else printf("O MSRESET %d ", code);
+            printf("%d,%d,%d,%d,%d,%d,%d,%d,%d,%d ", m->layout.nb_channels, m->layout.nb_streams, m->layout.nb_coupled_streams, m->arch,
+                   m->lfe_stream, m->application, m->variable_duration, (int)m->mapping_type, m->bitrate_bps, mz);
+            for (sidx = 0; sidx < m->layout.nb_streams; sidx++) {
+               OpusEncoder *e = NULL, *rf; int sz;
+               opus_multistream_encoder_ctl(m, OPUS_MULTISTREAM_GET_ENCODER_STATE(sidx, &e));
+               sz = opus_encoder_get_size(e->channels); rf = (OpusEncoder *)malloc(sz); opus_encoder_init(rf, e->Fs, e->channels, e->application);
+               if (sidx) printf(";");
+               print_enc(stdout, e, rf, sz); free(rf);
+            }
+         }
+         printf("\n");
+      }
+      obj_free(&o); free_case(&cs);
    }
    return 0;
 }
